@@ -58,6 +58,7 @@ def dispParse (ts : List String) : Option DObs :=
 def closerReason (c : String) : Option Nat :=
   match c.toList with
   | ['c', d] => if '0' ≤ d ∧ d ≤ '5' then some (d.toNat - 48) else none
+  | ['t', d] => if '0' ≤ d ∧ d ≤ '5' then some (d.toNat - 48) else none   -- manager.CloseTunnel(id, reason)
   | ['p'] => some Gen.ctunnel.CloseReasonPeerClosed
   | ['a'] => some Gen.ctunnel.CloseReasonContextCanceled
   | ['x'] => some Gen.ctunnel.CloseReasonError
@@ -100,6 +101,19 @@ def tunParse (ts : List String) : Option TObs :=
 
 /-! ### rep -/
 
+/-- Optional `<key> <k> <tid…>` list in front of `ts`. -/
+def optIds (key : String) (ts : List String) : List Nat × List String :=
+  match ts with
+  | k0 :: k :: rest =>
+    if k0 == key then
+      match k.toNat? with
+      | some k => match natList (rest.take k) with
+        | some ids => (ids, rest.drop k)
+        | none => ([], ts)
+      | none => ([], ts)
+    else ([], ts)
+  | _ => ([], ts)
+
 def repRounds : Nat → List String → Option (List Round)
   | 0, [] => some []
   | 0, _ => none
@@ -108,8 +122,11 @@ def repRounds : Nat → List String → Option (List Round)
     | some [s, rr, n, k] =>
       match takeN k rest with
       | some (ids, rest') =>
-        match natList ids, repRounds r rest' with
-        | some ids, some more => some (⟨s, rr, n, ids⟩ :: more)
+        -- optional storage faults: `g <k> <tid…>` GetPortMapping fails, `u <k> <tid…>` UpdatePortMappingStats fails
+        let fg := optIds "g" rest'
+        let fu := optIds "u" fg.2
+        match natList ids, repRounds r fu.2 with
+        | some ids, some more => some (⟨s, rr, n, ids, fg.1, fu.1⟩ :: more)
         | _, _ => none
       | none => none
     | _ => none
@@ -152,7 +169,7 @@ def brgInput (ts : List String) : Option BrgInput :=
 def brgModel (i : BrgInput) : BObs :=
   let c := bFinal i.n (lcgSched i.ms i.n (3 * i.n))
   -- cleanup's report and the periodic goroutine's final report: two reporters
-  let rep := rRound .repaired rInit ⟨i.bs, i.br, 2 * c.sh.cleanups, lcgSched (i.ms + 1) 2 6⟩
+  let rep := rRound .repaired rInit (mkRound i.bs i.br (2 * c.sh.cleanups) (lcgSched (i.ms + 1) 2 6))
   bObs c rep
 
 def brgShow (o : BObs) : String :=
@@ -394,6 +411,41 @@ def cstParse (ts : List String) : Option PObs :=
     | _, _, _, _, _, _ => none
   | _ => none
 
+/-! ### rep2 / rm -/
+
+/-- `rep2 a <d…> … s <k> <tid…>`: one reporter per bridge, all on one mapping. -/
+def rep2Input (ts : List String) : Option (List Nat × Schedule) :=
+  match natAfter "b" ts, natAfter "s" ts with
+  | some nb, some k =>
+    match natList (((after "b" ts).drop 1).take nb), natList (((after "s" ts).drop 1).take k) with
+    | some ds, some ids => if ds.length = nb ∧ ids.length = k ∧ nb ≥ 1 then some (ds, ids) else none
+    | _, _ => none
+  | _, _ => none
+
+/-- `rm pre <p> ops <k> <r|d…> s <m> <tid…>`. -/
+def rmInput (ts : List String) : Option (Nat × List MPc × Schedule) :=
+  match natAfter "pre" ts, natAfter "ops" ts, natAfter "s" ts with
+  | some pre, some k, some m =>
+    let ops := ((after "ops" ts).drop 1).take k
+    match natList (((after "s" ts).drop 1).take m) with
+    | some ids =>
+      if ops.length = k ∧ ids.length = m ∧ ops.all (fun o => o == "r" || o == "d") then
+        some (pre, ops.map (fun o => if o == "r" then MPc.reg else MPc.d1), ids)
+      else none
+    | none => none
+  | _, _, _ => none
+
+def rmShow (o : RmObs) : String :=
+  s!"registered {o.registered} disposed {o.disposed} pending {o.pending} twice {o.twice}"
+
+def rmParse (ts : List String) : Option RmObs :=
+  match ts with
+  | ["registered", a, "disposed", b, "pending", c, "twice", d] =>
+    match natList [a, b, c, d] with
+    | some [a, b, c, d] => some ⟨a, b, c, d⟩
+    | _ => none
+  | _ => none
+
 /-! ### entry points -/
 
 def runModel (ts : List String) : String :=
@@ -444,6 +496,14 @@ def runModel (ts : List String) : String :=
     match cstInput ts with
     | some i => cstShow (pObs (pFinal .swap i.a i.b i.fails i.sched))
     | none => "bad-case"
+  | "rep2" :: _ =>
+    match rep2Input ts with
+    | some (ds, ids) => s!"stats {(xFinal ds ids).sh}"
+    | none => "bad-case"
+  | "rm" :: _ =>
+    match rmInput ts with
+    | some (pre, pcs, ids) => rmShow (rmObs (mFinal pre pcs ids))
+    | none => "bad-case"
   | "mgr" :: _ =>
     -- two clean handlers: ResourceBase.onClose and the component's own onClose
     match mgrInput ts with
@@ -493,6 +553,14 @@ def runHolds (caseToks obsToks : List String) : String :=
   | "cst" :: _ =>
     match cstInput caseToks, cstParse obsToks with
     | some i, some o => holdsP i.a i.b i.fails o
+    | _, _ => false
+  | "rep2" :: _ =>
+    match rep2Input caseToks, obsToks with
+    | some (ds, _), ["stats", x] => (match x.toNat? with | some x => holdsX ds x | none => false)
+    | _, _ => false
+  | "rm" :: _ =>
+    match rmInput caseToks, rmParse obsToks with
+    | some _, some o => holdsM2 o
     | _, _ => false
   | "mgr" :: _ =>
     match mgrInput caseToks, mgrParse obsToks with
